@@ -378,6 +378,7 @@ def run(repo: Repo, ctx) -> None:
     _r9(repo, ctx)
     _r10(repo, ctx)
     _r11(repo, ctx)
+    _r12(repo, ctx)
 
 
 def _r6(repo: Repo, ctx) -> None:
@@ -859,3 +860,35 @@ def _r11(repo: Repo, ctx) -> None:
                f'rewrite registered and its table is read unfiltered',
                f'{f.module.rel()}:{arms[0].lineno}',
                sample=f'{getter} members visited')
+
+
+
+def _r12(repo: Repo, ctx) -> None:
+    """C07.R12 a range that was asked for *without* descendants reads the
+    one type only.  The rewrite of a type lists its descendants one by one
+    (each under its own rewrite) and ranges over the type itself with
+    `include_descendants=False`; if that range quietly widens to the
+    descendants (for an abstract type, say), a descendant with a policy of
+    its own is read a second time, raw.  Path fact on
+    `_get_typeref_descendants`: under `include_descendants` false every
+    return yields `[typeref]`."""
+    from ..absint import Facts, open_returns
+    ctx.floor('C07.R12', 1)
+    f = repo.func('edb.pgsql.compiler.relctx._get_typeref_descendants')
+    ctx.saw(f)
+    ps = f.params()
+    if 'include_descendants' not in ps:
+        raise AnalysisError('C07.R12: _get_typeref_descendants has no '
+                            'include_descendants parameter any more')
+    g = CFG(f.node)
+    F = Facts({'include_descendants': False}, f.node)
+    rets = open_returns(g, F)
+    vals = sorted({norm(r.value) if r.value is not None else 'None'
+                   for r in rets})
+    ok = bool(rets) and bool(F.used) and vals == [f'[{ps[0]}]']
+    ctx.ob('C07.R12', '_get_typeref_descendants:no-descendants-when-not-'
+           'asked', ok,
+           f'with include_descendants false _get_typeref_descendants can '
+           f'return {vals}: the range over one type widens to its '
+           f'descendants, whose tables are then read without their own '
+           f'rewrites', f.loc, sample=f'returns [{ps[0]}] only')
